@@ -6,6 +6,7 @@ import MgpuModel.C02Bar
 import MgpuModel.C02L1
 import MgpuModel.C02L1c
 import MgpuModel.C02Txn
+import MgpuModel.C02Arb
 /-!
 C02 — timing mode is functionally transparent.  Component models, each a pair
 (emulator side, timing side):
@@ -554,6 +555,7 @@ def handle (line : String) : String :=
   | "c02" :: "l1" :: "cache" :: t => L1c.handle t
   | "c02" :: "l1" :: t => L1.handleL1 t
   | "c02" :: "txn" :: t => Txn.handleTxn t
+  | "c02" :: "arb" :: t => Arb.handleArb t
   | _ => "bad"
 
 end C02
